@@ -172,15 +172,24 @@ func genCase(t *rapid.T) Case {
 					continue
 				}
 				used[act.H] = true
+				if leavesOpen(act.Kind) {
+					// the node finds out after 15 s only that a request stays open; most such peers
+					// send the block later or hang up
+					switch g.pick("open", 8) {
+					case 0:
+					case 1, 2:
+						if ps.DropAtMs == 0 {
+							ps.DropAtMs = 300 + g.pick("dropat", 1200)
+						}
+					default:
+						act.FollowMs = g.among("follow", 150, 400, 800)
+					}
+				}
 				ps.Acts = append(ps.Acts, act)
 				if act.Kind == "forged-block" && act.H != 0 && !used[act.H+1] && g.pick("pair", 3) > 0 {
 					// the companion block that names the forged one as its predecessor
 					used[act.H+1] = true
 					ps.Acts = append(ps.Acts, Act{H: act.H + 1, Kind: "forged-commit", Arg: act.Arg, Times: act.Times, DelayMs: act.DelayMs})
-				}
-				if act.Kind == "silent" && ps.DropAtMs == 0 && g.pick("silentforever", 8) != 0 {
-					// a silent peer is found out after 15 s only; most silent peers hang up earlier
-					ps.DropAtMs = 300 + g.pick("dropat", 1200)
 				}
 			}
 		}
@@ -212,7 +221,7 @@ func applyExclusions(c *Case, x *h.Ctx) {
 func (c Case) silentForever() bool {
 	for _, p := range c.Peers {
 		for _, a := range p.Acts {
-			if a.Kind == "silent" && p.DropAtMs == 0 {
+			if leavesOpen(a.Kind) && a.FollowMs == 0 && p.DropAtMs == 0 {
 				return true
 			}
 		}
